@@ -181,8 +181,9 @@ pub mod net {
     pub fn reset() {
         SWITCH.with(|s| {
             let mut s = s.borrow_mut();
-            s.sockets.clear();
-            s.wire.clear();
+            // release the containers' memory as well (the harness measures live heap bytes per case)
+            s.sockets = HashMap::new();
+            s.wire = Vec::new();
             s.next_port = 40000;
         });
     }
